@@ -582,7 +582,7 @@ inline void oracle_pairs(const Subject& S, const OpDesc& op, const Obs& o, Repor
         L.ratio("orthonormal", g / gb);
         if (!(g <= gb)) R.v("orthonormal", "||X'X-I||_max=" + gnum(g) + " bound=" + gnum(gb));
     }
-    else if (check_distinct)
+    else if (check_distinct && op.tol <= 1e-6L)  // with a coarse tolerance two Ritz pairs may legitimately approximate one eigenvalue
     {
         // distinct returned pairs are distinct eigenpairs: a SIMPLE eigenvalue of A (well separated from the rest of the
         // reference spectrum) must not be handed back twice with the same vector.  (For multiple / defective eigenvalues
